@@ -142,6 +142,52 @@ impl Ty {
     }
 }
 
+#[cfg(feature = "verif-hooks")]
+#[allow(missing_docs)]
+/// Verification hooks (feature `verif-hooks`): direct access to the private leaf parsers.
+pub mod verif {
+    use super::*;
+
+    /// returns (bytes consumed, type bits, len)
+    pub fn parse_tlf(input: &[u8]) -> Result<(usize, u8, u32), ParseError> {
+        let (rest, tlf) = TypeLengthField::parse(input)?;
+        let ty = match tlf.ty {
+            Ty::OctetString => 0,
+            Ty::Boolean => 4,
+            Ty::Integer => 5,
+            Ty::Unsigned => 6,
+            Ty::ListOf => 7,
+        };
+        Ok((input.len() - rest.len(), ty, tlf.len))
+    }
+
+    macro_rules! prim {
+        ($name:ident, $t:ty) => {
+            /// returns (bytes consumed, value)
+            pub fn $name(input: &[u8]) -> Result<(usize, $t), ParseError> {
+                let (rest, x) = <$t as SmlParse>::parse(input)?;
+                Ok((input.len() - rest.len(), x))
+            }
+        };
+    }
+    prim!(parse_u8, u8);
+    prim!(parse_u16, u16);
+    prim!(parse_u32, u32);
+    prim!(parse_u64, u64);
+    prim!(parse_i8, i8);
+    prim!(parse_i16, i16);
+    prim!(parse_i32, i32);
+    prim!(parse_i64, i64);
+    prim!(parse_bool, bool);
+
+    /// returns (bytes consumed, offset of the string in `input`, length of the string)
+    pub fn parse_octet_str(input: &[u8]) -> Result<(usize, usize, usize), ParseError> {
+        let (rest, x) = <crate::parser::OctetStr as SmlParse>::parse(input)?;
+        let consumed = input.len() - rest.len();
+        Ok((consumed, consumed - x.len(), x.len()))
+    }
+}
+
 #[cfg(test)]
 mod tests {
     use super::*;
